@@ -135,7 +135,7 @@ TEXT = {
   "level": "Theorem C11_holds: for every configured process, every readable storage directory of this release, every update script, every list of calls of the other thread "
            "(launch reports, queries, checks with any responses) and EVERY interleaving of the two threads at the granularity of state-lock acquisitions, after every single "
            "grant: no number whose boot failure is recorded (before or during the episode) is selected / last good / booting, its ban is never lost and the update does not "
-           "install it (C02); the last good artifact keeps its bytes unless that patch itself fails, is rolled back or re-issued, or another patch boots (C03); every query that "
+           "install it (C02); the last good artifact keeps its bytes unless that patch itself fails, is rolled back or re-issued, or another patch boots - a patch whose success is reported during the episode is tracked from that grant on (C03); every query that "
            "returns a patch returns the selected patch, valid at that moment (C01). Proof: every section preserves the invariants for arbitrary thread-local data, then "
            "induction over the schedule (no enumeration). urun_eq_updateCore / crun_eq_checkCore: the sequential model is the section machine run without interruption. "
            "Tie: a two-thread scheduler parks the real library's threads at the before_lock hook, forces random schedules, and every grant's disk and return values are "
@@ -164,7 +164,7 @@ TEXT = {
  },
  "C09": {
   "level": "Theorem C09_holds: for every history whose effective inits configure one public key, the C09 monitor accepts the model trace - after an update "
-           "reports n installed, n is the next-boot patch (installed_is_next, every disk); and once every record of number n matches the artifact in place, n stays "
+           "reports n installed, n is the next-boot patch (installed_is_next, every disk) and what it left selected passes the boot-time validation (installed_next_valid); and once every record of number n matches the artifact in place, n stays "
            "selected, its artifact stays a file and next-boot queries report n after every later call (restarts, launch reports of other patches, checks, failed/no-op "
            "updates, rollbacks of other numbers, damage elsewhere) until another install, a failed/crashed boot of n, a rollback naming n, a release change or outside "
            "damage to the state files or n's artifact. Invariant SelD pushed through every patch-manager function, section and call (step_sel). The same monitor runs "
